@@ -466,8 +466,8 @@ func (j *judge) invariants(final bool) []finding {
 			if seq, ok := j.executed[ck][N]; ok && (seq > r.Seq || N == r.ClockSlot) {
 				continue
 			}
-			out = append(out, finding{sig, fmt.Sprintf("%s duties obtained for epoch %d (version %d) at clock slot %d during %s have a duty of ours in slot %d (%s) but there is no job for it and it was not executed (clock slot now %d)",
-				k.kind, r.Epoch, r.Version, r.ClockSlot, r.Phase, N, why, c)})
+			out = append(out, finding{sig, fmt.Sprintf("%s duties obtained for epoch %d (version %d) at clock slot %d during %s have a duty of ours in slot %d (%s) but there is no job for it and it was not executed",
+				k.kind, r.Epoch, r.Version, r.ClockSlot, r.Phase, N, why)})
 		}
 	}
 	// J6: duties of the current epoch have been requested
